@@ -199,6 +199,12 @@ func (w *World) PkgTypes(path string) *types.Package {
 			return p.Types
 		}
 	}
+	// a dependency known from export data
+	for _, p := range w.Pkgs {
+		if imp, ok := p.Imports[path]; ok && imp.Types != nil {
+			return imp.Types
+		}
+	}
 	return nil
 }
 
